@@ -37,7 +37,7 @@ SAMPLE_CAP = 6
 
 
 class Outcome(object):
-    __slots__ = ("disc", "nontrivial", "outcome", "states", "transitions", "traces")
+    __slots__ = ("disc", "nontrivial", "outcome", "states", "transitions", "traces", "leftovers")
 
     def __init__(self):
         self.disc = []          # list of dict(message, expected, observed, tol, tags)
@@ -46,6 +46,12 @@ class Outcome(object):
         self.states = []        # canonical model states visited (hashables)
         self.transitions = 0    # model transitions whose result was compared with the impl
         self.traces = 0         # executions of the implementation
+        self.leftovers = []     # library objects the case built and is done with (scribbled over afterwards: mc/scribble.py)
+
+    def keep(self, obj):
+        """register an object the case built; returns it"""
+        self.leftovers.append(obj)
+        return obj
 
     def fail(self, message, expected=None, observed=None, tol=None, **tags):
         self.disc.append(
@@ -134,6 +140,11 @@ def run_case(sub, case):
     try:
         try:
             out = sub.run(case)
+            if out.leftovers:
+                # what the caller does afterwards with what it was given must not reach anybody else
+                from mc import scribble
+                scribble.scribble(getattr(sub, "svg", None) or load_repo()[0], out.leftovers)
+                out.leftovers = []
         finally:
             signal.setitimer(signal.ITIMER_VIRTUAL, 0)
     except CaseTimeout:
